@@ -3,8 +3,10 @@
 // Every implementation call runs in its own goroutine under recover with a deadline; the outcome is one of
 // {ok, err, panic, timeout}. The same bytes go to the Lean model (lrmodel_c13); outcomes and, when ok, the decoded
 // content are compared (IMPL vs MODEL). The SPEC oracle of "never panics / always answers" is simply: the outcome is
-// ok or err. A panic is attributed to the open finding F13 only when the model panics on the same bytes and the
-// class predicate (some varint of the buffer >= 2^63 - its size; evaluated by the driver) holds.
+// ok or err. F13 (length varint >= 2^63 - idx in an api/rpc decoder) and F44 (unquoting lengthens a field value beyond 255
+// bytes) are FIXED (dbbc1a7, 72eac47): their witnesses stay in the corpus and must pass; a panic / malformed stored list
+// that the model (which follows the regenerated facts) shows too and that satisfies the old class predicate is tagged with
+// the old id, so that the orchestrator reports "the defect is back".
 //
 // Sections
 //
@@ -572,6 +574,12 @@ func runWire(sec *vh.Section, cases []wireCase, verbose bool) {
 			if w := map[bool]string{true: "panic", false: a2[i]}[mk == "panic"]; po.line() != w {
 				res.Mismatch(vh.Mismatch{Section: "wire", Function: modelOp[c.Kind] + " (buffer with spare capacity)", Input: c, Impl: po.line(), Model: a2[i]})
 			}
+		}
+		if c.Kind == "ev" && im.Kind == "panic" && mk == "panic" && strings.Contains(a2[i], "f13=1") {
+			// remark, not a failure of C13: model.LogEvent.Unmarshal (pkg/model) keeps the direct library call; it is applied only to
+			// records the server marshalled itself, never to request bytes (Props.C13.record_decode_total_partial / cex_record_varint)
+			res.Dist(sec, "ev/"+c.How+"/library-varint-panic (remark: stored-record decoder, not reachable from requests)")
+			continue
 		}
 		if im.Kind == "panic" || im.Kind == "timeout" {
 			f := vh.SpecFailure{Section: "wire", Kind: map[string]string{"panic": "panic", "timeout": "hang"}[im.Kind], Input: c,
